@@ -71,12 +71,37 @@ def x_explorer_store():
         raise Broken("GetGuardianSet: fetch of the range current+1..index not found")
     if not re.search(r'gs\.updateGuardianSets\(guardianSets\)\s*\n\s*gs\.guardianSetC <- gs\.GetCurrentGuardianSet\(\)', get):
         raise Broken("GetGuardianSet: update + notification after the fetch not found")
+    # getGuardianSetsRange: the requested range against what the contract has.  Getters.sol getGuardianSet(i) is a mapping read: an index
+    # the contract does not have (yet) is answered with an EMPTY set, not with an error; the range is capped at the contract's current
+    # index iff the function reads that index and lowers toIndex to it before the per-index loop
+    try:
+        rng = src[src.index("func (gs *GuardianSets) getGuardianSetsRange("):]
+        rng = rng[:rng.index("\n}\n")]
+    except ValueError:
+        raise Broken("gst_data.go: func getGuardianSetsRange not found")
+    call = re.search(r'return getGuardianSetsFromChain\(ctx, contract, fromIndex, toIndex\)', rng)
+    if not call:
+        raise Broken("getGuardianSetsRange: `return getGuardianSetsFromChain(ctx, contract, fromIndex, toIndex)` not found")
+    mcur = re.search(r'(\w+), err := contract\.GetCurrentGuardianSetIndex\(', rng)
+    capped = False
+    if mcur and mcur.start() < call.start():
+        v = mcur.group(1)
+        mcap = re.search(r'if toIndex > %s \{\s*toIndex = %s\s*\}' % (v, v), rng)
+        capped = bool(mcap and mcur.start() < mcap.start() < call.start())
+        if not capped:
+            raise Broken("getGuardianSetsRange: reads the contract's current index but `if toIndex > %s { toIndex = %s }` before the fetch not found" % (v, v))
+    sol = rd("ethereum/contracts/Getters.sol")
+    if not re.search(r'function getGuardianSet\(uint32 index\)[^{]*\{\s*return _state\.guardianSets\[index\];\s*\}', sol):
+        raise Broken("Getters.sol: getGuardianSet is no longer the plain mapping read `return _state.guardianSets[index]` (what it answers for an unknown index is not known)")
     locked = not unlocked
-    out = ("(* gst_data.go: does every method read currentGuardianSetIndex / guardianSetLists under gs.lock? *)\n"
+    out = ("(* gst_data.go getGuardianSetsRange: is the fetched range capped at the contract's current guardian-set index? (Getters.sol getGuardianSet is a\n"
+           "   plain mapping read: an index the contract does not have is answered with the empty set) *)\n"
+           "Definition explorer_range_capped : bool := %s.\n" % ("true" if capped else "false"))
+    out += ("(* gst_data.go: does every method read currentGuardianSetIndex / guardianSetLists under gs.lock? *)\n"
            "Definition explorer_reader_locked : bool := %s.\n"
            "(* updateGuardianSets: is the index written before the list is appended? *)\n"
            "Definition explorer_writer_index_first : bool := %s.\n" % ("true" if locked else "false", "true" if wi.start() < wa.start() else "false"))
-    return out, {"reader_locked": locked, "unlocked_accesses": unlocked, "writer_index_first": wi.start() < wa.start()}
+    return out, {"reader_locked": locked, "unlocked_accesses": unlocked, "writer_index_first": wi.start() < wa.start(), "range_capped": capped}
 
 def _modcache():
     try:
